@@ -916,10 +916,10 @@ void run_bake_base(uint64_t seed, const sk_mask* mask, sk_result* out)
 	sk_rng r;
 	cfg_t* c = &CFG;
 	uint64_t fill[2], ts[2], ss;
-	int strat, v;
-	err_t rc[2][2];
-	octet keys[2][2][32];
-	int acc[2][2];
+	int strat, v, pass, kca, kcb;
+	err_t rc[3][2];
+	octet keys[3][2][32];
+	int acc[3][2];
 	OUT = out, MASK = mask;
 	c15_only = 0;
 	sk_rng_seed(&r, seed);
@@ -928,47 +928,73 @@ void run_bake_base(uint64_t seed, const sk_mask* mask, sk_result* out)
 		c->mode[0] = c->mode[1] = 1;
 	fill[0] = sk_u64(&r), fill[1] = sk_u64(&r), ts[0] = sk_u64(&r), ts[1] = sk_u64(&r), ss = sk_u64(&r);
 	strat = (int)sk_below(&r, 4);
-	describe("fault-free session x2 (different heap garbage)");
+	describe("fault-free session x3 (heap garbage A, garbage B, stale image of a sibling session)");
 	sk_heap_filter = heap_filter;
 	out->nops = 0;
-	for (v = 0; v < 2; ++v)
-	{
-		sk_heap_reset(fill[v]);
-		PT[0].fail_at = PT[1].fail_at = 0;
-		setup_party(0, ts[0], 0), setup_party(1, ts[1], 0);
-		ch_init(&CHS[0], 0);
-		CHS[0].fragment_honest = 0xFF;
-		if (run_session(&CHS[0], ss, strat) != 0)
+	kca = c->kca, kcb = c->kcb;
+	/* runs 0, 1: different seeded garbage.  Run 2: fresh blocks hold what a sibling
+	   session - same keys and generator tapes, every key confirmation switched on -
+	   left at the same place: the adversarial "garbage" of a long-lived process, in
+	   which a field the protocol forgot to compute may happen to hold the right value */
+	for (v = 0; v < 3; ++v)
+		for (pass = (v == 2 ? 0 : 1); pass < 2; ++pass)
 		{
-			sk_violate(out, "deadlock", "fault-free session did not terminate");
-			sk_restart_requested = 1;
-			return;
+			if (pass == 0)
+			{
+				sk_heap_reset(fill[0]);
+				if (c->proto != P_BAUTH)
+					c->kca = c->kcb = 1;
+				else
+					c->kcb = 1;
+			}
+			else
+			{
+				c->kca = kca, c->kcb = kcb;
+				if (v < 2)
+					sk_heap_reset(fill[v]);
+				else
+					sk_heap_reset_stale();
+			}
+			PT[0].fail_at = PT[1].fail_at = 0;
+			setup_party(0, ts[0], 0), setup_party(1, ts[1], 0);
+			ch_init(&CHS[0], 0);
+			CHS[0].fragment_honest = 0xFF;
+			if (run_session(&CHS[0], ss, strat) != 0)
+			{
+				c->kca = kca, c->kcb = kcb;
+				sk_violate(out, "deadlock", "fault-free session did not terminate");
+				sk_restart_requested = 1;
+				return;
+			}
+			if (sk_heap_overrun())
+			{
+				sk_violate(out, "overrun:protocol", "canary damaged during a %s session", PN[c->proto]);
+				return;
+			}
+			if (pass == 0)
+				continue;
+			rc[v][0] = PT[0].rc, rc[v][1] = PT[1].rc;
+			acc[v][0] = PT[0].accepted, acc[v][1] = PT[1].accepted;
+			memcpy(keys[v][0], PT[0].key, 32), memcpy(keys[v][1], PT[1].key, 32);
+			sk_dg_u64(&out->digest, rc[v][0]), sk_dg_u64(&out->digest, rc[v][1]);
 		}
-		if (sk_heap_overrun())
-		{
-			sk_violate(out, "overrun:protocol", "canary damaged during a %s session", PN[c->proto]);
-			return;
-		}
-		rc[v][0] = PT[0].rc, rc[v][1] = PT[1].rc;
-		acc[v][0] = PT[0].accepted, acc[v][1] = PT[1].accepted;
-		memcpy(keys[v][0], PT[0].key, 32), memcpy(keys[v][1], PT[1].key, 32);
-		sk_dg_u64(&out->digest, rc[v][0]), sk_dg_u64(&out->digest, rc[v][1]);
-	}
 	sk_count("calls", 1);
 	sk_count("probe.protocol_sessions_twice", 1);
 	if (is_known_framing())
 		return;
-	if (rc[0][0] != rc[1][0] || rc[0][1] != rc[1][1] || acc[0][0] != acc[1][0] || acc[0][1] != acc[1][1] ||
-		(acc[0][0] && memcmp(keys[0][0], keys[1][0], 32)) || (acc[0][1] && memcmp(keys[0][1], keys[1][1], 32)))
-	{
-		sk_violate(out, "uninitialised_influence:protocol", "%s l=%u kca=%d kcb=%d: the outcome of a fault-free session changes with the garbage in fresh heap memory (A rc %u/%u, B rc %u/%u)",
-			PN[c->proto], (unsigned)c->l, c->kca, c->kcb, (unsigned)rc[0][0], (unsigned)rc[1][0], (unsigned)rc[0][1], (unsigned)rc[1][1]);
-		return;
-	}
+	for (v = 1; v < 3; ++v)
+		if (rc[0][0] != rc[v][0] || rc[0][1] != rc[v][1] || acc[0][0] != acc[v][0] || acc[0][1] != acc[v][1] ||
+			(acc[0][0] && memcmp(keys[0][0], keys[v][0], 32)) || (acc[0][1] && memcmp(keys[0][1], keys[v][1], 32)))
+		{
+			sk_violate(out, "uninitialised_influence:protocol", "%s l=%u kca=%d kcb=%d: the outcome of a fault-free session changes with %s (A rc %u/%u, B rc %u/%u)",
+				PN[c->proto], (unsigned)c->l, c->kca, c->kcb,
+				v == 1 ? "the garbage in fresh heap memory" : "fresh memory holding the stale image of a sibling session",
+				(unsigned)rc[0][0], (unsigned)rc[v][0], (unsigned)rc[0][1], (unsigned)rc[v][1]);
+			return;
+		}
 	out->sig = sk_mix(((uint64_t)c->proto << 24) | ((uint64_t)c->l << 8) | ((uint64_t)c->kca << 3) | ((uint64_t)c->kcb << 2) | ((uint64_t)c->mode[0] << 1) | (uint64_t)c->mode[1], 78);
 	out->nontrivial = 1;
 }
-
 
 /* ------------------------------------------------------------------------
    C15 for secrets the harness cannot name: the same session (same shape, same
